@@ -597,6 +597,13 @@ func ruleEncPair(c *Ctx, r *Report) *encPairing {
 					}
 					return false
 				}():
+				case func() bool {
+					if ok4, why := encSliceJustified(c, ep, f, call, encArg, valArg); ok4 {
+						r.OK(key, pos, why)
+						return true
+					}
+					return false
+				}():
 				default:
 					ok2, why := encVarJustified(c, f, encArg, valArg)
 					r.Check(ok2, key, pos, why, fmt.Sprintf("%s passes %s with encoding %s to %s, which asserts the value to *gnmi.TypedValue without checking when the encoding is a gNMI one, and nothing shows the value is a *gnmi.TypedValue whenever the encoding is: %s — a SetNode/Unmarshal call with another value type panics instead of returning an error", f.Name, types.ExprString(valArg), types.ExprString(encArg), g.Decl.Name.Name, why))
@@ -699,4 +706,134 @@ func encVarJustified(c *Ctx, f *FuncInfo, encArg, valArg ast.Expr) (bool, string
 		return true, fmt.Sprintf("encoding variable set to a gNMI constant at %d place(s), each under a successful .(*gnmi.TypedValue) test of the value passed on", n)
 	}
 	return false, why
+}
+
+// jsonOnlyFact: the facts at n restrict f's encoding parameter to JSONEncoding.
+func jsonOnlyFact(c *Ctx, f *FuncInfo, n ast.Node, enc types.Object) bool {
+	info := f.Info()
+	for _, ft := range c.FactsAt(f, n, false) {
+		if ft.Kind == "switch" && ObjOf(info, ft.Cond) == enc && len(ft.Vals) > 0 {
+			all := true
+			for _, v := range ft.Vals {
+				nm := constName(info, v)
+				if nm[strings.LastIndex(nm, ".")+1:] != "JSONEncoding" {
+					all = false
+				}
+			}
+			if all {
+				return true
+			}
+		}
+	}
+	return false
+}
+
+// encSliceJustified: the value passed on is an element of a local slice that the function fills
+// per encoding: every element stored where the encoding parameter may be a gNMI one is statically a
+// *gnmi.TypedValue; what is stored inside the JSONEncoding arm is never seen with a gNMI encoding,
+// because the (unmodified) encoding parameter itself is passed on.
+func encSliceJustified(c *Ctx, ep *encPairing, f *FuncInfo, call *ast.CallExpr, encArg, valArg ast.Expr) (bool, string) {
+	info := f.Info()
+	fe, ok := ep.encParam[f]
+	ps := paramObjs(f)
+	if !ok || ObjOf(info, encArg) != ps[fe] {
+		return false, ""
+	}
+	// the encoding parameter is never reassigned.
+	for _, d := range allDefs(f, ps[fe]) {
+		_ = d
+		return false, ""
+	}
+	valObj := ObjOf(info, valArg)
+	if valObj == nil {
+		return false, ""
+	}
+	// valArg: range value over a local slice.
+	var slice types.Object
+	ast.Inspect(f.Decl.Body, func(n ast.Node) bool {
+		if rs, ok := n.(*ast.RangeStmt); ok && rs.Value != nil && ObjOf(info, rs.Value) == valObj {
+			if o, isVar := ObjOf(info, rs.X).(*types.Var); isVar && paramIndex(f, o) < 0 {
+				slice = o
+			}
+		}
+		return true
+	})
+	if slice == nil {
+		return false, ""
+	}
+	isTV := func(e ast.Expr) bool {
+		tv, ok := info.Types[e]
+		return ok && isTypedValuePtr(tv.Type)
+	}
+	isTVSlice := func(e ast.Expr) bool {
+		tv, ok := info.Types[e]
+		if !ok || tv.Type == nil {
+			return false
+		}
+		sl, ok := tv.Type.Underlying().(*types.Slice)
+		return ok && isTypedValuePtr(sl.Elem())
+	}
+	okAll, writes := true, 0
+	ast.Inspect(f.Decl.Body, func(n ast.Node) bool {
+		as, ok := n.(*ast.AssignStmt)
+		if !ok {
+			return true
+		}
+		for i, l := range as.Lhs {
+			if rootObjOf(info, l) != slice || len(as.Rhs) != len(as.Lhs) {
+				continue
+			}
+			writes++
+			if jsonOnlyFact(c, f, as, ps[fe]) {
+				continue // never seen together with a gNMI encoding
+			}
+			rhs := ast.Unparen(as.Rhs[i])
+			if _, isIdx := l.(*ast.IndexExpr); isIdx {
+				if !isTV(rhs) {
+					okAll = false
+				}
+				continue
+			}
+			if callE, isCall := rhs.(*ast.CallExpr); isCall {
+				if id, isID := callE.Fun.(*ast.Ident); isID && id.Name == "append" && len(callE.Args) >= 1 && rootObjOf(info, callE.Args[0]) == slice {
+					for _, a := range callE.Args[1:] {
+						if callE.Ellipsis.IsValid() {
+							if !isTVSlice(a) {
+								okAll = false
+							}
+						} else if !isTV(a) {
+							okAll = false
+						}
+					}
+					continue
+				}
+			}
+			if !isTVSlice(rhs) {
+				okAll = false
+			}
+		}
+		return true
+	})
+	if okAll && writes > 0 {
+		return true, fmt.Sprintf("element of the local slice %s: its %d write(s) store *gnmi.TypedValue values except inside the JSONEncoding arm, and the encoding parameter is passed on unchanged", slice.Name(), writes)
+	}
+	return false, ""
+}
+
+// rootObjOf: the variable at the root of an lvalue (x, x[i], x.f).
+func rootObjOf(info *types.Info, e ast.Expr) types.Object {
+	for {
+		switch x := ast.Unparen(e).(type) {
+		case *ast.Ident:
+			return info.ObjectOf(x)
+		case *ast.IndexExpr:
+			e = x.X
+		case *ast.SelectorExpr:
+			e = x.X
+		case *ast.StarExpr:
+			e = x.X
+		default:
+			return nil
+		}
+	}
 }
